@@ -258,7 +258,7 @@ def run(ctx):
                     continue
                 res = {}
                 for pol, edge in ((True, sw[0][1]), (False, sw[0][2])):
-                    reg = C.reach(f, [edge[1]], stop_blocks=hdrs)
+                    reg = Sccp(f, stop_blocks=hdrs).run([(edge[1], {})]).exec_blocks
                     strs = []
                     for c in f.calls():
                         if c.bb in reg and c.path.endswith("String::push_str"):
